@@ -28,6 +28,9 @@ ConstsOK ==
     /\ \A n \in ConstNames : Targets[i].consts[n] = UAPI[n]
     /\ Targets[i].consts["errnoENOSYS"] =
          (IF Targets[i].goos \in LinuxFamily THEN ENOSYSof[Targets[i].goarch] ELSE UAPI["errnoENOSYS"])
+    \* ... and so does every constant internal/unix exports on the target and the UAPI headers define, listed above or not
+    \* (unixconsts: [name, got, want] for each of them, ENOSYS on Linux excepted: it is per architecture)
+    /\ \A k \in 1..Len(Targets[i].unixconsts) : Targets[i].unixconsts[k].got = Targets[i].unixconsts[k].want
 \* hence a policy compiles to the same program wherever it is compiled for a
 \* given table: the values the compiler embeds do not depend on the target
 SameEverywhere ==
